@@ -14,15 +14,17 @@ _tab = None
 def crc32c(seed, data):
     global _tab
     if _tab is None:
-        _tab = []
+        tab = []
         for i in range(256):
             c = i
             for _ in range(8):
                 c = (c >> 1) ^ (0x82F63B78 if c & 1 else 0)
-            _tab.append(c)
+            tab.append(c)
+        _tab = tab              # published only when complete (used from worker threads)
+    t = _tab
     c = seed
     for b in data:
-        c = _tab[(c ^ b) & 255] ^ (c >> 8)
+        c = t[(c ^ b) & 255] ^ (c >> 8)
     return c
 
 
